@@ -39,7 +39,8 @@ def standins(tier, seed):
               '(a / Q23)', '(a * Q23)', '(Q23 * a)', '((a + b) / Q23)', '(a / -4)', '(a / 2.5)', '(-2 * a)', '(2 - a)', '(Q23 - a)', '(a - Q23)']
     if tier == 'quick':
         cfgs = [dict(p=3, q=0, r=1, exhaustive_depth2=True, sample=60, random=10, always=always), dict(p=2, q=1, exhaustive_depth2=True, sample=60, random=10),
-                dict(p=2, exhaustive_depth2=True, sample=40, random=10, nargs=2), dict(p=3, random=25, nargs=3, modes=['numeric'])]
+                dict(p=2, exhaustive_depth2=True, sample=40, random=10, nargs=2), dict(p=3, random=25, nargs=3, modes=['numeric']),
+                dict(p=3, q=0, r=1, random=0, single_blades=True, modes=['numeric']), dict(p=3, random=0, single_blades=True, modes=['numeric'])]
     else:
         cfgs = [dict(p=3, q=0, r=1, exhaustive_depth2=True, random=60, always=always), dict(p=2, q=1, exhaustive_depth2=True, random=60),
                 dict(p=2, exhaustive_depth2=True, random=40), dict(p=3, random=120, nargs=3, modes=['numeric']),
